@@ -2,7 +2,8 @@
    (component.go), over an abstract alphabet of inbound top-level elements.
    The list of items is what arrives COMPLETE before the connection is lost;
    the end of the list is the cut (NextPacket returns an error).
-   Executable definitions only. *)
+   Executable definitions only (plus the declarative predicates the theorems are
+   stated against). *)
 From Coq Require Import List ZArith NArith Bool.
 From XV Require Import Lib.Sx.
 Import ListNotations.
@@ -21,6 +22,9 @@ Inductive item :=
 
 Definition is_stanza (i : item) : bool :=
   match i with IStanza _ _ => true | _ => false end.
+Definition is_serr (i : item) : bool :=
+  match i with IStreamError _ => true | _ => false end.
+Definition is_r (i : item) : bool := match i with ISmR => true | _ => false end.
 
 (* what the receive goroutine itself does, in program order *)
 Inductive action :=
@@ -29,36 +33,65 @@ Inductive action :=
 | AWrite (h : N)            (* <a h='h'/> written successfully *)
 | AWriteFail (h : N)        (* the write of <a h='h'/> failed *)
 | AErrCall                  (* ErrorHandler(err) *)
-| AEvDisconnected (inb : N) (* Disconnected event carrying SMState (Inbound shown) *)
+| AEvDisconnected (inb : N) (* Disconnected event carrying the session's SMState (its Inbound shown; Id and queue are the
+                               session's own: the correspondence compares them with what the session held) *)
 | AEvStreamError
 | ADisconnectCall           (* c.Disconnect() -> transport.Close() *)
 | ARecvStreamClose          (* transport.ReceivedStreamClose() *)
-| AQuit.                    (* the client's keepaliveQuit is closed BY NOW AT THE LATEST (after a stream error it has been
-                               closed already when that error was reported): before it reports the loss (the Disconnected handler of a
-                               StreamManager only returns once a new session is up); the component: loop returned *)
+| AQuit.                    (* client: keepaliveQuit is closed HERE (the first stopKeepalive(); later calls do nothing):
+                               at the first stream error BEFORE it is routed and reported (client.go:528), otherwise
+                               when the loop ends, before the loss is reported (client.go:518, :557).
+                               component (no keepalive): the loop has returned *)
 
-(* Client.recv.  inb: SMState.Inbound; nw: number of transport writes made so far
-   by this loop; wfail: the (1-based) write that fails, if any. *)
-Fixpoint crecv (inb : N) (nw : nat) (wfail : option nat) (items : list item) : list action :=
+(* what the loop does when NextPacket returns an error: stop the keepalive (if that has not happened yet),
+   error callback, Disconnected event with the session's state, return *)
+Definition report_loss (stopped : bool) (inb : N) : list action :=
+  (if stopped then [] else [AQuit]) ++ [AErrCall; AEvDisconnected inb].
+(* a stream error whose StreamError event handler has REPLACED the connection by the time it returns (a
+   StreamManager reconnects from inside that handler, stream_manager.go:84-90): the transport then holds
+   another decoder and belongs to the new session.  The same as any stream error up to the error callback;
+   then the loop returns (client.go:532-537), without Disconnect (it would close the NEW session) and
+   without a Disconnected event *)
+Definition hand_over (tag : N) (stopped : bool) (inb : N) : list action :=
+  (if stopped then [] else [AQuit]) ++ [ARouteSync (IStreamError tag); AEvStreamError; AErrCall].
+
+(* Client.recv on [items], then [fin] (what happens when the items are used up).
+   stopped: keepaliveQuit already closed; inb: SMState.Inbound; nw: number of transport writes made so
+   far by this loop; wf k: the k-th (1-based) write of this loop fails. *)
+Fixpoint crecv_k (fin : bool -> N -> list action)
+    (stopped : bool) (inb : N) (nw : nat) (wf : nat -> bool) (items : list item) : list action :=
   match items with
-  | [] => [AQuit; AErrCall; AEvDisconnected inb]
+  | [] => fin stopped inb
   | i :: rest =>
       match i with
-      | IBad => [AQuit; AErrCall; AEvDisconnected inb]
+      | IBad => report_loss stopped inb
       | IStreamError _ =>
-          (* routed once, synchronously; then the stream-error event, the error callback and Disconnect;
-             the loop goes on reading until the connection is gone *)
-          ARouteSync i :: AEvStreamError :: AErrCall :: ADisconnectCall :: crecv inb nw wfail rest
+          (* this connection is over and so is its keepalive; routed once, synchronously; then the stream-error
+             event, the error callback and Disconnect; the loop goes on reading until the connection is gone *)
+          (if stopped then [] else [AQuit]) ++
+          ARouteSync i :: AEvStreamError :: AErrCall :: ADisconnectCall :: crecv_k fin true inb nw wf rest
       | ISmR =>
           (* an answer that cannot be written (the connection is going away) does not end the loop: what was
              received before the loss is still in the buffers and is processed; the read side reports the loss *)
-          (if match wfail with Some k => Nat.eqb k (S nw) | None => false end
-           then AWriteFail inb else AWrite inb) :: ARouteAsync i :: crecv inb (S nw) wfail rest
-      | IClose => [ARecvStreamClose; AQuit; AEvDisconnected inb]
-      | IStanza _ _ => ARouteAsync i :: crecv (inb + 1) nw wfail rest
-      | ISmA _ | INonza _ => ARouteAsync i :: crecv inb nw wfail rest
+          (if wf (S nw) then AWriteFail inb else AWrite inb) :: ARouteAsync i :: crecv_k fin stopped inb (S nw) wf rest
+      | IClose => ARecvStreamClose :: (if stopped then [] else [AQuit]) ++ [AEvDisconnected inb]
+      | IStanza _ _ => ARouteAsync i :: crecv_k fin stopped (inb + 1) nw wf rest
+      | ISmA _ | INonza _ => ARouteAsync i :: crecv_k fin stopped inb nw wf rest
       end
   end.
+(* the connection is lost behind [items] (the handlers of the application leave the connection alone) *)
+Definition crecv_from : bool -> N -> nat -> (nat -> bool) -> list item -> list action := crecv_k report_loss.
+Definition crecv : N -> nat -> (nat -> bool) -> list item -> list action := crecv_from false.
+(* [items], then a stream error whose handler replaces the connection (what is behind it on the old
+   connection is nobody's any more) *)
+Definition crecv_handover (tag : N) : N -> nat -> (nat -> bool) -> list item -> list action :=
+  crecv_k (hand_over tag) false.
+
+(* write-fault oracles: none; exactly the k-th write; every write from the k-th on (what a connection
+   that is going away does) *)
+Definition no_fault : nat -> bool := fun _ => false.
+Definition fault_at (k : nat) : nat -> bool := Nat.eqb k.
+Definition fault_from (k : nat) : nat -> bool := fun n => Nat.leb k n.
 
 (* Component.recv: no stream management, synchronous routing; on error the state
    change comes before the error callback. *)
@@ -76,26 +109,46 @@ Fixpoint precv (items : list item) : list action :=
   end.
 
 (* ---- declarative side: what "completely received before the loop ended" means ---- *)
-(* items processed before the loop stops: up to the first IBad / IClose (a failing answer
-   write does not stop it; [nw] and [wfail] are kept as parameters for the statements) *)
-Fixpoint processed (nw : nat) (wfail : option nat) (items : list item) : list item :=
+(* elements at which the loops stop WITHOUT processing them *)
+Definition stops (i : item) : bool := match i with IBad | IClose => true | _ => false end.
+
+(* [p] is what a loop processes of [items]: the longest prefix without a stopping element *)
+Definition is_processed_prefix (items p : list item) : Prop :=
+  exists rest, items = p ++ rest /\
+    (forall i, In i p -> stops i = false) /\
+    (rest = [] \/ exists i r, rest = i :: r /\ stops i = true).
+
+(* computed (RecvP: processed_is_prefix, processed_unique: it is THE list with that property);
+   neither the write faults nor the number of writes have a say in it *)
+Fixpoint processed (items : list item) : list item :=
   match items with
   | [] => []
-  | IBad :: _ => []
-  | IClose :: _ => []
-  | ISmR :: rest => ISmR :: processed (S nw) wfail rest
-  | i :: rest => i :: processed nw wfail rest
+  | i :: rest => if stops i then [] else i :: processed rest
   end.
-Fixpoint pprocessed (items : list item) : list item :=
+(* nothing in [items] stops the loop: it comes to the end of them *)
+Definition reaches_end (items : list item) : bool := forallb (fun i => negb (stops i)) items.
+
+(* how the loop ended *)
+Inductive ending :=
+| EndCut          (* read error: the input was used up *)
+| EndRejected     (* NextPacket rejected an element *)
+| EndClosed.      (* </stream:stream> *)
+Fixpoint how_ended (items : list item) : ending :=
   match items with
-  | [] => []
-  | IBad :: _ => []
-  | IClose :: _ => []
-  | i :: rest => i :: pprocessed rest
+  | [] => EndCut
+  | IBad :: _ => EndRejected
+  | IClose :: _ => EndClosed
+  | _ :: rest => how_ended rest
   end.
+Definition ends_by_close (items : list item) : bool :=
+  match how_ended items with EndClosed => true | _ => false end.
 
 Definition routed (tr : list action) : list item :=
   flat_map (fun a => match a with ARouteSync i | ARouteAsync i => [i] | _ => [] end) tr.
+Definition routed_async (tr : list action) : list item :=
+  flat_map (fun a => match a with ARouteAsync i => [i] | _ => [] end) tr.
+Definition routed_sync (tr : list action) : list item :=
+  flat_map (fun a => match a with ARouteSync i => [i] | _ => [] end) tr.
 Definition answers (tr : list action) : list N :=
   flat_map (fun a => match a with AWrite h => [h] | _ => [] end) tr.
 (* every answer the loop wrote or tried to write, in order *)
@@ -106,6 +159,13 @@ Definition count_act (p : action -> bool) (tr : list action) : nat := length (fi
 Definition is_err a := match a with AErrCall => true | _ => false end.
 Definition is_disc a := match a with AEvDisconnected _ => true | _ => false end.
 Definition is_quit a := match a with AQuit => true | _ => false end.
+(* application code entered ON the receive goroutine (it may take as long as it likes: the Disconnected and
+   StreamError handlers of a StreamManager return only when a new session is up) *)
+Definition is_callback a :=
+  match a with ARouteSync _ | AErrCall | AEvDisconnected _ | AEvStreamError => true | _ => false end.
+(* what the loop does while the session is up *)
+Definition is_live a :=
+  match a with ARouteAsync _ | AWrite _ | AWriteFail _ | ARecvStreamClose => true | _ => false end.
 
 (* the keepalive is told to stop before the loss is reported *)
 Fixpoint quit_before_disc (tr : list action) : bool :=
@@ -115,12 +175,32 @@ Fixpoint quit_before_disc (tr : list action) : bool :=
   | AEvDisconnected _ :: _ => false
   | _ :: r => quit_before_disc r
   end.
-(* nothing is routed, answered or written once the quit channel is closed *)
+(* ... before ANY application callback is entered on the receive goroutine *)
+Fixpoint quit_before_callbacks (tr : list action) : bool :=
+  match tr with
+  | [] => false
+  | AQuit :: _ => true
+  | a :: r => negb (is_callback a) && quit_before_callbacks r
+  end.
+(* nothing is routed, answered or written once the quit channel is closed: only the loss is reported.
+   (NOT true after a stream error: see RecvP.crecv_quiet_without_stream_error / crecv_quit_position) *)
 Fixpoint quiet_after_quit (tr : list action) : bool :=
   match tr with
   | [] => true
   | AQuit :: r => forallb (fun a => match a with AErrCall | AEvDisconnected _ => true | _ => false end) r
   | _ :: r => quiet_after_quit r
+  end.
+
+(* the elements before the first stream error, and from it on *)
+Fixpoint before_serr (l : list item) : list item :=
+  match l with
+  | [] => []
+  | i :: r => if is_serr i then [] else i :: before_serr r
+  end.
+Fixpoint from_serr (l : list item) : list item :=
+  match l with
+  | [] => []
+  | i :: r => if is_serr i then i :: r else from_serr r
   end.
 
 (* expected answers: for each <r/> among the processed items, the number of stanzas
@@ -132,10 +212,6 @@ Fixpoint expected_answers (inb : N) (l : list item) : list N :=
   | IStanza _ _ :: rest => expected_answers (inb + 1) rest
   | _ :: rest => expected_answers inb rest
   end.
-
-(* how the loop ended *)
-Definition ends_by_close (nw : nat) (wfail : option nat) (items : list item) : bool :=
-  match skipn (length (processed nw wfail items)) items with
-  | IClose :: _ => true
-  | _ => false
-  end.
+(* of the answers attempted (the first of them being write number [first] of the loop), those the transport took *)
+Definition written (wf : nat -> bool) (first : nat) (att : list N) : list N :=
+  map snd (filter (fun p => negb (wf (fst p))) (combine (seq first (length att)) att)).
